@@ -12,7 +12,7 @@
     fn w_bucket(s: &CountMinSketch<u32>, row: usize, item: u64) -> usize {
         let mut h = MurmurHash3X64128::with_seed(s.hash_seeds[row]); item.hash(&mut h); let (h1, _) = h.finish128(); (h1 % WB as u64) as usize
     }
-    #[kani::proof] #[kani::unwind(23)]
+    #[kani::proof] #[kani::unwind(90)]
     fn w_c08_cm_merge_is_cellwise_sum() {
         let a = w_cells(); let b = w_cells(); let ta: u32 = kani::any(); let tb: u32 = kani::any(); kani::assume(ta < (1 << 30) && tb < (1 << 30));
         let mut s = w_cm(a, ta); let o = w_cm(b, tb);
